@@ -3,6 +3,7 @@
 Serialization for the Indexed MRS format.
 """
 
+import re
 from pathlib import Path
 
 from delphin import variable
@@ -254,7 +255,7 @@ def _decode_arglist(lexer, variables):
                     variables[arg] = _decode_proplist(lexer)
                 arglist.append(arg)
             else:
-                carg = arg
+                carg = _unescape(arg)
             if not lexer.accept_type(COMMA):
                 break
     lexer.expect_type(RPAREN)
@@ -363,12 +364,20 @@ def _encode_rel(ep, semi, varprops, lnk, delim):
             for d in synopsis
             if d.name in ep.args and d.name != CONSTANT_ROLE]
     if ep.carg is not None:
-        args.append('"{}"'.format(ep.carg))
+        args.append('"{}"'.format(_escape(ep.carg)))
     return '{label}:{pred}{lnk}({args})'.format(
         label=ep.label,
         pred=ep.predicate,
         lnk=str(ep.lnk) if lnk else '',
         args=delim.join(args))
+
+
+def _escape(s):
+    return s.replace('\\', '\\\\').replace('"', '\\"')
+
+
+def _unescape(s):
+    return re.sub(r'\\(.)', r'\1', s)
 
 
 def _encode_hcons(hc):
